@@ -189,7 +189,7 @@ fn run_case(case: &Case, st: &mut RunStats) -> Outcome<Case> {
     dg.bytes(&enc.image);
     st.digest = dg.finish();
     if npts > 0 || !exp.blobs.is_empty() || !exp.file.images.is_empty() {
-        let wc = WriterCase { prog: case.prog.clone(), wchunk: Chunk::Full, rchunk: case.rchunk.clone(), sink: Chunk::Full };
+        let wc = WriterCase { prog: case.prog.clone(), wchunk: Chunk::Full, rchunk: case.rchunk.clone(), sink: Chunk::Full, legacy_blob_headers: false };
         let mut fp = Digest::new();
         fp.u64(shape_fingerprint(&wc, None));
         fp.u64(enc.stats.data_packets).u64(enc.stats.index_packets).u64(enc.stats.ignored_packets).u64(enc.stats.empty_streams.min(8)).u64(enc.stats.packets_completing_no_point.min(8));
